@@ -208,8 +208,12 @@ def check(ctx: Ctx, col: Collector, tier: str) -> None:
                         "an overridden method of the farther ancestor is emitted again")
         # the class's own methods are filtered with the incoming names
         outs = iit.run_function(ifi, {"self": Sym("self"), "superclass": Sym("superclass"), "inner_indentations": Sym("ind"), "already_defined_names": Sym("adn")}, gen_state())
-        good = outs and all(any(e.kind == "call" and e.target == CMS and dict(e.kwargs).get("already_defined_names") == Sym("adn")
-                                and dict(e.kwargs).get("is_internal_class") == Const(True) for e in o.effects) for o in outs if o.kind == "return")
+        # a path on which the ancestor is not a class of the package (lookup returned None) has nothing to inline: it must emit nothing
+        def nothing_to_inline(o) -> bool:
+            return o.value == Const("") and any(k.startswith("None==self._get_class_in_package(") and v for k, v in o.facts)
+        inlining = [o for o in outs if o.kind == "return" and not nothing_to_inline(o)]
+        good = inlining and all(any(e.kind == "call" and e.target == CMS and dict(e.kwargs).get("already_defined_names") == Sym("adn")
+                                    and dict(e.kwargs).get("is_internal_class") == Const(True) for e in o.effects) for o in inlining)
         (col.ok if good else col.bad)("C17.RECURSE", f"{key1}::filters-own-methods", repo.loc(GEN, ifi.node),
                                       "methods of the inlined class are filtered with already_defined_names, is_internal_class=True" if good else "call shape differs",
                                       *([] if good else ["methods of an inlined class are not filtered against the names already defined in the subclass"]))
